@@ -10,6 +10,7 @@ from qvlib.intervals import INT_RANGES, Intervals, ty_range
 from qvlib.paths import Flow, agg_sites, call_matches, explore
 
 CRATES = ["quiver_core"]
+OPTIONAL_FNS = ("BinaryData::write_to_vec",)      # R-C12-6 falls back to to_vec when the flattening loop lives there
 TABLE_PATH = os.path.join(VERIF, "rules", "tables", "c12.json")
 TABLE = json.load(open(TABLE_PATH)) if os.path.exists(TABLE_PATH) else {"residual": {}}
 REGS = ("register_binary_builtins", "register_integer_builtins", "register_vector_builtins")
@@ -658,6 +659,8 @@ def r6_recursion(ctx):
     ctx.floor(R, "recursive functions on the builtins' paths", len(rec), 3)
     # the Concat arm of write_to_vec stays iterative
     wk = "quiver_core::binary::BinaryData::write_to_vec"
+    if wk not in F.fns:
+        wk = "quiver_core::binary::BinaryData::to_vec"       # the flattening loop folded into its only caller
     if wk in F.fns:
         fn = F.fn(wk)
         ms = [m for m in hir.matches(hir.body_of(fn)) if "BinaryData" in (m.get("sty") or "")]
@@ -672,7 +675,7 @@ def r6_recursion(ctx):
                 detail += back
                 ok = ok or not back
         if not ms:
-            raise CheckError("%s: the match over BinaryData in write_to_vec was not found" % R)
+            raise CheckError("%s: the match over BinaryData in %s was not found" % (R, wk.split("::")[-1]))
         ctx.check(ok and not detail, R, wk + "|Concat-iterative", "the Concat arm pushes its children on the explicit work stack (no recursive call)",
                   "the Concat arm of write_to_vec calls back into the recursive group (%s): flattening a long append-built rope recurses once per "
                   "append" % sorted(set(detail)), "%s:%d" % (fn["file"], fn["line"]))
